@@ -83,6 +83,19 @@ def _norm_compression_opts(
     return compression
 
 
+def _pix_band_first(geo_im: xr.DataArray) -> Any:
+    """
+    Pixels of a geo-registered array as ``Y,X`` or ``B,Y,X``.
+
+    Axis order is taken from the dimension names, the shape alone can not
+    tell ``B,Y,X`` from ``Y,X,B`` when ``nbands == ny == nx``.
+    """
+    pix = geo_im.data
+    if pix.ndim == 3 and geo_im.odc.spatial_dims is not None and geo_im.odc.ydim == 0:
+        pix = pix.transpose([2, 0, 1])
+    return pix
+
+
 def _write_cog(
     pix: np.ndarray,
     geobox: GeoBox,
@@ -111,9 +124,11 @@ def _write_cog(
         nbands = 1
         band = 1  # type: Any
     elif pix.ndim == 3:
-        if pix.shape[:2] == geobox.shape:
+        if pix.shape[-2:] == geobox.shape:
+            pass  # band, y, x already (also when nbands == ny == nx)
+        elif pix.shape[:2] == geobox.shape:
             pix = pix.transpose([2, 0, 1])
-        elif pix.shape[-2:] != geobox.shape:
+        else:
             raise ValueError("GeoBox shape does not match image shape")
 
         nbands, h, w = pix.shape  # type: ignore
@@ -278,7 +293,7 @@ def write_cog(
         assert result is not None
         return result
 
-    pix = geo_im.data
+    pix = _pix_band_first(geo_im)
     geobox = geo_im.odc.geobox
     nodata = extra_rio_opts.pop("nodata", None)
     if nodata is None:
@@ -426,7 +441,7 @@ def write_cog_layers(
         # write each layer into mem image
         for img, m in zip(xx, mm):
             _write_cog(
-                img.data,
+                _pix_band_first(img),
                 img.odc.geobox,
                 m.name,
                 overview_levels=[],
